@@ -58,7 +58,7 @@ def model_gen(chk, p):
     vecs = []
     for k, kmin, layouts in p["gens"]:
         consts = dict(lang.PARSER_REPAIRED, K=k, KMin=kmin, LeafSet='"pos"', OpSet='"cast"', LayoutSet=layouts, Emit="TRUE",
-                      ZeroPowEarlyExit="FALSE", ZeroEntriesKept="FALSE")
+                      ZeroPowEarlyExit="FALSE", ZeroEntriesKept="FALSE", Temperature="FALSE")
         cfg = lang.mc_cfg(os.path.join(w, "gen%d.cfg" % k), consts=consts, invariants=["RenderParses", "ParserRefines", "EmitInv"])
         t = tlc("MC_Eval", cfg, workers=12, timeout=6000, xmx="14g")
         expect_holds(t, "MC_Eval (grammar side)")
